@@ -92,7 +92,14 @@ class RawClient:
     def connect(self):
         if self.hid is not None:
             self.world.net.accept_hids.append(self.hid)
-        self.sock.connect(("127.0.0.1", PORT))
+        try:
+            self.sock.connect(("127.0.0.1", PORT))
+        except ConnectionRefusedError:
+            # the manager is gone (its death is what the check reports); the client simply cannot connect
+            self.refused = True
+            if self.hid is not None and self.world.net.accept_hids:
+                self.world.net.accept_hids.pop()
+            return self
         self.mgr_side = self.sock.peer_sock
         self.mgr_side.tag = self.slot
         return self
@@ -102,7 +109,7 @@ class RawClient:
         # error, never a harness failure; the checks observe the consequences on the manager side
         try:
             self.sock.sendall(data)
-        except ConnectionError:
+        except OSError:
             self.send_errors = getattr(self, "send_errors", 0) + 1
 
     def fin(self):
